@@ -48,6 +48,17 @@ def cross_xsd(case, base_location):
     return base, main
 
 
+def dual_xsd(case):
+    """XSD 1.1: element m is a member of the substitution groups of both h and k"""
+    named = []
+    body = cm.render_particle(case['model'], named)
+    decls = ''.join('<xs:element name="%s" type="xs:string"/>' % k for k in ('a', 'b', 'h', 'k'))
+    decls += '<xs:element name="m" type="xs:string" substitutionGroup="t:h t:k"/>'
+    return ('<xs:schema xmlns:xs="http://www.w3.org/2001/XMLSchema" targetNamespace="%s" xmlns:t="%s" '
+            'elementFormDefault="qualified">%s%s<xs:element name="r"><xs:complexType>%s</xs:complexType></xs:element></xs:schema>'
+            % (cm.TNS, cm.TNS, decls, ''.join(named), body))
+
+
 def subject(case):
     import os
     import xmlschema
@@ -61,6 +72,8 @@ def subject(case):
             base, main = cross_xsd(case, 'file://' + str(tmp))
             tmp.write_text(base)
             cls(main)
+        elif case.get('dual'):
+            cls(dual_xsd(case))
         else:
             cls(xsd_for(case))
         return {'build': 'ok'}
@@ -71,12 +84,20 @@ def subject(case):
             tmp.unlink()
 
 
-def make_case(model, version, cross=False):
+def make_case(model, version, cross=False, dual=False):
     model = cm.assign_pids(json.loads(json.dumps(model)))
     c = {'model': model, 'version': version, 'sigma': cm.alphabet(model, ('d',))}
     if cross:
         c['cross'] = True
+    if dual:
+        c['dual'] = True
     return c
+
+
+def dual_leaf(name, occ):
+    lf = cm.E(name, occ)
+    lf['syms'] = [name, 'm'] if name in ('h', 'k') else [name]
+    return lf
 
 
 def cross_model(ns1, occ1, ns2, occ2):
@@ -139,6 +160,8 @@ def evaluate(ctx, cases):
         ctx.count(('m', json.dumps(c, sort_keys=True)), nontrivial=cm.size(c['model']) >= 3)
         if c.get('cross'):
             ctx.dist('family', 'wildcards of two target namespaces')
+        if c.get('dual'):
+            ctx.dist('family', 'member of two substitution groups (XSD 1.1)')
         ctx.sample({'model': desc(c), 'reference_deterministic': want_ok, 'implementation': o['build'],
                     'closure_states': size})
         if o['build'] not in ('ok', 'model'):
@@ -209,6 +232,13 @@ def gen_cases(ctx):
     for a, o1, b, o2 in cross:
         for v in (['1.0', '1.1'] if not ctx.quick() else [rng.choice(['1.0', '1.1'])]):
             cases.append(make_case(cross_model(a, o1, b, o2), v, cross=True))
+    # XSD 1.1: one element substituting two heads; the heads compete wherever they are both admitted
+    duals = [(k, n1, o1, n2, o2, go) for k in ('seq', 'choice') for n1 in ('h', 'k', 'm', 'a') for n2 in ('h', 'k', 'm')
+             for o1 in [(1, 1), (0, 1), (0, None)] for o2 in [(1, 1), (0, 1)] for go in [(1, 1), (0, None)] if n1 != n2]
+    if ctx.quick():
+        duals = rng.sample(duals, 80)
+    for k, n1, o1, n2, o2, go in duals:
+        cases.append(make_case(cm.G(k, [dual_leaf(n1, o1), dual_leaf(n2, o2)], go), '1.1', dual=True))
     # EDC: same local name with equal / different types
     for i in range(60 if ctx.quick() else 600):
         v = '1.1' if i % 2 else '1.0'
@@ -237,4 +267,4 @@ def run(ctx):
 
 def replay(ctx, case):
     c = case['case']
-    evaluate(ctx, [make_case(c['model'], c['version'], cross=c.get('cross', False))])
+    evaluate(ctx, [make_case(c['model'], c['version'], cross=c.get('cross', False), dual=c.get('dual', False))])
